@@ -76,7 +76,7 @@ Applicable(op) ==
     \/ op.op \in WriteOps /\ form \in {"vec", "boxed"}
     \/ op.op \in ReadOps  /\ form \in {"vec", "boxed", "ro"}
     \/ op.op = "capacity" /\ form = "vec"
-    \/ op.op = "reload"   /\ form \in {"vec", "boxed"} /\ op.mode \in {"full", "eps", "mmap"}
+    \/ op.op = "reload"   /\ form \in {"vec", "boxed"} /\ op.mode \in {"full", "eps", "eps8", "mmap"}
     \/ op.op = "a_mem_size" /\ form \in {"atomic", "atomic_boxed"}
     \/ op.op \in AtomOps  /\ form \in {"atomic", "atomic_boxed"}
     \/ op.op = "into" /\ IntoOK(form, op.to)
